@@ -16,6 +16,46 @@ CHECKS = {
           "lists are recorded as drift, not judged.",
   "technique": "TLA+ spec (Layout.tla) model-checked by TLC; TLC-generated behaviours replayed into the real shard with state comparison after every action",
  },
+ "C08": {
+  "text": "TLC exhaustively checks QuerySem.tla. Part 1 is the documented InfluxQL semantics as operators over the logical contents of a "
+          "measurement (rows [series tags, time, fields], null = absent): Where (time range, tag =, !=, regex, field comparisons, AND/OR), "
+          "plain selections with GROUP BY tags and LIMIT/OFFSET, count/sum/mean (exact rational)/min/max/first/last overall, per tag "
+          "group and per epoch-aligned bucket Bucket(t,w) = t - (t % w) with the time stamp rules (epoch 0 / lower bound without interval, "
+          "bucket start with interval, the point's time for a sole selector), FILL none/null/number/previous (count reports 0), "
+          "descending = the ascending stream reversed (fill(previous) follows the iteration order as in InfluxDB 1.x); it is checked for "
+          "the invariant Laws (count, bucket, descending, limit, group partition and fill laws, each stated without the operator it "
+          "constrains) over every data set of a tiny universe x a query family. Part 2 is a state machine of the executor's operators "
+          "consuming the row stream in chunks with carried state (pending group of the aggregate, current group / next window / previous "
+          "values of fill, rows to skip / return of limit), checked for ChunkIndependence: for every sorted stream up to the bound and "
+          "EVERY partition into chunks the emitted answer equals the direct evaluation with the operators of part 1. The same "
+          "specification is the oracle: TLC simulates random data sets (4 series over 2 tag keys, 3 fields of kinds int/float/string/"
+          "bool, gaps, nulls, equal time stamps across series) and random queries of the bounded grammar, enumerates a query family over "
+          "two fixed data sets, EVALUATES the expected answers (ascending and descending; where the language leaves the answer open - "
+          "order of rows with equal time stamps, pick among tied first/last/min/max points - the set of acceptable answers) plus the "
+          "predictions of the deviation models of the open findings, and exports them. props/c08.py loads every data set into real "
+          "single-node ts-server processes over HTTP (line protocol; a copy written in one batch and a copy whose rows and single fields "
+          "are spread over two batches around a flush), waits once for index / meta visibility, and runs every query under the matrix "
+          "{ascending, descending} x {not chunked, chunked=true&chunk_size=1|2} x {inner_chunk_size default, 1, 2, 3} x {memtable, one "
+          "file, file + memtable, ordered + out-of-order file, (thorough) after the out-of-order merge} x /debug/ctrl "
+          "chunk_reader_parallel {default, 1, 4} x two server configurations (default; ptnum-pernode=3, cpu-num=2, "
+          "chunk-reader-parallel=1, max-rows-per-segment=3); every answer must be one the specification accepts (mean as rational vs "
+          "float within 1e-9, everything else exact) and all answers of a query must be equal.",
+  "design_ref": "DESIGN.md section 5 C08",
+  "note": "Bounds of the cfg files (laws: 2 series x 3-4 times x values {0,1} with a null-carrying second field; chunk machine: streams of "
+          "length <= 6 (quick: 3) over 2 groups x 3 windows x values {null,1,2}, 4 fill modes, 3 limit/offset pairs); quick tier: "
+          "~110-170 (data set, query) pairs x 48 runs each (seeded sample of 6 of the 24 direction/chunking variants per layout phase), "
+          "thorough: the full variant matrix. Single node only (no multi-node cluster); one database with 1h shard groups (data sets "
+          "with a 600 s step span two shard groups); background compaction and out-of-order merge are switched off through /debug/ctrl "
+          "and the memtable's cold flush through [data.memtable], so that layouts are the ones the check builds (level compaction is "
+          "not forced: there is no control endpoint for it); GROUP BY time queries always carry both time bounds; fill(<number>) only for "
+          "numeric results; ten open findings F-C08-1..10 are re-observed on the unchanged tree: F-C08-1, 2, 4, 5 are attributed "
+          "only when the answer is one the finding's deviation model (evaluated by TLC) predicts, F-C08-3 (binary_tree_merge returns "
+          "empty answers) by one sentinel query per server with the switch otherwise off, F-C08-9 (pick among tied points depends on "
+          "the configuration) when two specification-accepted answers differ, and F-C08-6, 7, 8 by predicate (aggregate with a condition "
+          "on a non-aggregated field; field condition on rows spread over two layers; aggregates over two layers descending or with tiny "
+          "chunks) because their wrong answers depend on read order - query classes under these predicates are not judged.",
+  "technique": "TLA+ spec (QuerySem.tla) model-checked by TLC (semantic laws + chunk-partition independence); TLC-evaluated (data set, query, expected answer) cases replayed into real ts-server processes over HTTP under a configuration matrix",
+ },
  "C11": {
   "text": "TLC exhaustively checks Routing.tla (shard groups as sorted [start,end) spans incl. RANGE re-sharding, HASH/RANGE sharding, "
           "shard key as a subsequence of the tag keys (optionally altered between groups), an uninterpreted hash tried with several functions, WriteRoute and the sound "
@@ -171,11 +211,124 @@ CHECKS = {
           "taken); characters, tag keys and measurement names drawn per case from the seed (commas, equals signs, spaces, quotes, "
           "backslashes, regex metacharacters, unicode, the index's separator bytes \\x01/\\x02; \\x00 cannot be written in InfluxQL); the "
           "index is flushed before a search (allowed lag); tag arrays, column store, series deletion (C13) and concurrent writers (C04) "
-          "are not covered. Seven open findings (F-C10-1 anchored matching of non-literal regexes, F-C10-2 anchors of ^lit$ dropped on the "
+          "are not covered. The SELECT path is evaluated with emptied caches and once more in batch order (tag-filter cache). Eight open findings (F-C10-1 anchored matching of non-literal regexes, F-C10-2 anchors of ^lit$ dropped on the "
           "SHOW path, F-C10-3 empty-accepting regex treated as match-all, F-C10-4 nil operand under AND on the SHOW path, F-C10-5 matching "
           "on escaped bytes, F-C10-6 lookup-before-create misses unflushed items after a cache drop, F-C10-7 SHOW TAG KEYS splits the "
-          "unescaped series key) are re-observed and attributed only when the real result equals the prediction of the specification's "
+          "unescaped series key, F-C10-8 tag-filter cache entries shared by /a\\\\.b/ and /a.b/) are re-observed and attributed only when the real result equals the prediction of the specification's "
           "deviation model (computed per subset of deviation classes present in the predicate) exactly.",
   "technique": "TLA+ spec (SeriesIndex.tla) model-checked by TLC; TLC-generated behaviours replayed into the real tsi merge-set index with comparison of the id map after every action and of every search on all production entry points",
+ },
+ "C06": {
+  "text": "TLC exhaustively checks LineProtocol.tla, a character-CLASS automaton of the line protocol (states Mst, TagKey, TagVal, "
+          "FieldKey, FieldVal / FieldValStr / FieldValEnd, Timestamp; classes plain, non-ASCII, comma, space, equals, quote, backslash; 39 "
+          "value tokens: integers small / negative / 2^53 / 2^53+1 / big / max / min / overflow, floats simple / exponent / -0 / leading "
+          "and trailing dot / integral / 17+ digit mantissa / extreme / '+' sign / f suffix / overflow / NaN-Inf, the ten boolean "
+          "spellings and wrong ones, u suffix, junk; 8 timestamp tokens x 9 precisions; one action per consumed class; the state is "
+          "the decoded point as sequences of input positions, or Reject) for AcceptHasField, NoUnescapedSeparator, Conservation (every "
+          "position is structure or appears once, in order, in one decoded string), QuotesOnlyDelimitStrings, TagsComplete, "
+          "ValueFaithful, RejectAbsorbing, BatchOK within the cfg bounds. TLC then ENUMERATES every class sequence of the export configs "
+          "(structure: all classes to 7 positions; values: every value token in one- and two-field lines; timestamps: every token x "
+          "precision; tags: up to two tags) plus seeded simulation of lines up to 40 classes; each sequence carries the expected "
+          "decoding or Reject and the decodings of the as-implemented deviation automata. Every sequence is concretised (texts per class "
+          "drawn from the seed, the case id embedded in plain / non-ASCII texts so that each line has its own fresh measurement), posted "
+          "to /write of ONE real ts-server, and read back with select * group by * (epoch=ns), show field keys, show measurements: "
+          "accepted lines must return exactly the decoded measurement, tag set, timestamp, field set, field types and values (integers "
+          "as the decimal text of the JSON token, floats bit-exact, strings and tags byte-exact, missing timestamp inside the request "
+          "window); rejected lines must be answered >= 400 and store nothing; no other measurement may appear. Batches mixing valid "
+          "lines and parse-level invalid lines (9 shapes, LF / CRLF / blank lines) must be answered 4xx, store nothing for the invalid "
+          "line, and store every valid line when acknowledged.",
+  "design_ref": "DESIGN.md section 5 C06",
+  "note": "Per character class, not per code point; bounds of the cfg files, the quick tier replays a seeded sample (half of it lines that "
+          "some automaton accepts); replay side is Python over HTTP (props/c06.py), not the Go harness; single-node ts-server; new series "
+          "are judged after the series-index flush (sentinel polled once, acknowledged-but-invisible points re-read); in key positions "
+          "a backslash escapes , space = and \\ (VictoriaMetrics/openGemini rule; InfluxDB 1.x keeps \\\\ and \\= in measurements), "
+          "measurement names may not contain , or \\ (validator.go), negative timestamps and the u suffix are rejected, the f suffix is "
+          "a float; a quote inside a field key may be rejected; which value wins for a repeated field key is not judged; measurement "
+          "names made only of quote / equals characters are replayed in at most 3 lane databases; whether a 4xx batch stores its valid "
+          "lines is recorded, not judged (the server drops the block); 5xx instead of 4xx for a rejected line is reported as a note. Open "
+          "findings F-C06-1..7 (integers through float64, fastfloat rounding / '+' / '-12.', timestamp scaling overflow, unvalidated f "
+          "suffix, quote-parity field scanning storing empty strings, last line of a block decides the batch status, lenient tags) are "
+          "re-observed and attributed only when the real result equals the prediction of the finding's deviation model exactly.",
+  "technique": "TLA+ spec (LineProtocol.tla) model-checked by TLC; TLC-enumerated class sequences with expected decoding replayed as concrete text through the real server's /write and /query with exact comparison",
+ },
+ "C13": {
+  "text": "TLC exhaustively checks DropSem.tla (one database as catalogue: retention policies -> measurements with a generation counter and "
+          "version suffix; per measurement instance the live series and the rows over the layers memory / flushed / out-of-order / compacted; "
+          "actions Write, Flush, Compact, Restart(clean|kill), DropSeries with tag predicates =, !=, regex, !~, AND/OR selecting none, some or "
+          "all series, DROP SERIES without FROM, DropMeasurement, DropRP/CreateRP, DropDatabase/CreateDatabase, re-creation by writing again) "
+          "for DroppedStaysGone, OthersUntouched (action property), FreshAfterRecreate, AllShapesAgree within the cfg bounds; six mutation "
+          "seeds each give a TLC counterexample. Seeded TLC simulations produce behaviours that share a skeleton of global actions (flush / "
+          "compaction / clean or kill restart); every behaviour is replayed over HTTP into its own database (two retention policies, "
+          "measurements m and n) of one real single-node ts-server per skeleton, the behaviours running concurrently and meeting at a "
+          "barrier for each global action. After EVERY action the read-shape matrix (select * without filter, tag =, !=, =~ alternation, "
+          "!~, OR, AND, field filter, GROUP BY tag, count GROUP BY time, count/sum with and without GROUP BY, count with a regex filter; "
+          "SHOW SERIES, SHOW TAG KEYS, SHOW TAG VALUES for both keys; for each of the three measurement instances, plus the listings and a "
+          "count of an untouched witness database) is compared with the specification's expected answer of every shape.",
+  "design_ref": "DESIGN.md section 5 C13",
+  "note": "Bounds of the cfg files (3 hosts x 2 regions, 4 time stamps, <= 3 rows per write, 10 (quick) / 14 (thorough) actions per behaviour, "
+          "3 / 5 skeletons); black box over HTTP, timestamps in one shard group, integer or float field by seed; statements always name the "
+          "retention policy (an unqualified DROP MEASUREMENT / DROP SERIES addresses the whole database); after an acknowledged statement the "
+          "matrix is polled at most 30 s for the asynchronous convergence the statement allows (series index flush, tag-filter cache "
+          "invalidation every 10 s, two-phase drops) and judged on its last answer; after actions that change nothing an answer holding data "
+          "the expectation does not is judged at once; memtable flushed only where the behaviour flushes; of the reorganisations only the "
+          "out-of-order merge is reachable within seconds (level compaction needs 8 files, full compaction a 2-minute cold shard), so Compact "
+          "is that merge when out-of-order files exist; overwriting a live row is left to C02. Eight open findings (F-C13-1..8: name-scan "
+          "and or-suffix index paths skip the deleted set, pooled index searches keep another index's deleted set, DROP SERIES and the "
+          "listings ignore the retention policy, tag keys come from the schema, rows still in the WAL come back after a restart, index "
+          "entries of a dropped measurement stay listed) are re-observed and attributed only when the real answer equals the prediction of "
+          "the as-implemented world of DropSem.tla exactly (F-C13-3, nondeterministic, by its predicate on the witness database).",
+  "technique": "TLA+ spec (DropSem.tla) model-checked by TLC; TLC-simulated behaviours replayed over HTTP into a real single-node server with comparison of every read shape after every action",
+ },
+ "C15": {
+  "text": "TLC exhaustively checks MetaCatalog.tla: the catalogue of ts-meta as abstract state (data and sql nodes, partition view, replica "
+          "groups, databases -> retention policies (duration, shard-group and index-group duration, default, replica number) -> measurements "
+          "with versions and ids -> shard groups [start,end,deleted] -> shards (id, owner partition, index id); index groups; users and "
+          "privileges; the Max*ID counters) with one pure operator per modelled raft command (CreateDataNode, CreateSqlNode, CreateDbPtView, "
+          "UpdateReplication, Create/MarkDelete/Drop Database, Create/Update/MarkDelete/Drop/SetDefault RetentionPolicy, "
+          "Create/MarkDelete/Drop Measurement, Create/Delete ShardGroup, PruneGroups, CreateUser, DropUser, SetPrivilege; valid and invalid "
+          "arguments) and the actions Snapshot (Data.Clone), Persist (Marshal, later, with applies in between) and Restore (Unmarshal, then the "
+          "commands after the snapshot index again), for SnapshotPointInTime and SnapshotComplete within the cfg bounds. TLC-exported behaviours "
+          "(every BFS path of a tiny universe, two seeded simulation profiles of 30 steps) are replayed into real meta.Data instances fed the "
+          "same protobuf-marshalled log through the functions the FSM's apply handlers call: a reference; a replica that goes through "
+          "Data.Clone -> MarshalBinary -> UnmarshalBinary at the specification's Snapshot / Persist / Restore positions and re-applies the "
+          "commands after the snapshot; a replica whose maps are re-created in shuffled insertion order before every command (and the real "
+          "storeFSM through raft.FSM.Apply/Snapshot/Persist/Restore when the tree carries the verif accessor). After every step the returns "
+          "(text) and the canonical dumps (reflection over every field; deletion stamps as set/unset) must be equal, the restored image must "
+          "equal the reference's dump at Snapshot time, and the reference must equal the specification's return class and state.",
+  "design_ref": "DESIGN.md section 5 C15",
+  "note": "Bounds of the cfg files; 21 of the 67 registered command types are modelled, the others (streams, continuous queries, "
+          "subscriptions, down-sampling, migration events, schema updates, re-sharding, node status ...) are not replayed (the design's "
+          "opaque commands are not built); level 1 drives meta.Data through the exported apply functions of apply_func_base.go and mirrors "
+          "the three handlers that live in store_fsm.go (CreateDatabase, DropDatabase, CreateSqlNode); the storeFSM level needs the verif "
+          "accessor (*Store).VerifFSM (patch /verif/.work/hook-meta.diff, not committed at build time); one snapshot per behaviour; one "
+          "partition per node, HASH sharding, one sql node; Go's map iteration order is varied by re-creating maps in shuffled order and by "
+          "the runtime's own randomisation. Open findings F-C15-1 (measurement ids lost by MeasurementInfo.clone), F-C15-2 (Clone shares "
+          "ReplicaGroups / SqlNodes with the live catalogue) and F-C15-3 (group start before MinNanoTime wraps around in the snapshot) are "
+          "re-observed and attributed only when the divergence equals the prediction of the deviation model exactly; the behaviours are "
+          "generated with the as-implemented deviations of the open entries of known_findings.json (ImplDev).",
+  "technique": "TLA+ spec (MetaCatalog.tla) model-checked by TLC; TLC-generated command logs replayed into three real meta.Data instances (apply-all, snapshot/restore, shuffled maps) with dump comparison after every step",
+ },
+ "C16": {
+  "text": "TLC exhaustively checks MetaCatalog.tla (same specification as C15; the design clips a new shard group's window to its live "
+          "neighbours, cuts it at MinNanoTime/MaxNanoTime, clears a dropped default policy) for GroupsDisjointAlignedSorted (per policy and "
+          "engine kind: live groups pairwise disjoint, each inside one window of the duration it was created with, slice sorted by end/start), "
+          "IdsUnique, IdsNeverReused (history variable of identifiers ever handed out), RefsValid (shard -> index of its policy, owner "
+          "partitions and their nodes exist), DefaultPolicyExists, FailedCommandIsNoop and NoPanic over two bounded command alphabets "
+          "(policies / shard groups with timestamps on and around boundaries; databases / measurements / users) ; ten mutation seeds each give "
+          "a TLC counterexample. The behaviours shared with C15 (timestamps on, one nanosecond before/after and inside hour, two- and "
+          "three-hour windows, models.MinNanoTime and MaxNanoTime; duration changes between creations; deletes and prunes; unknown names, "
+          "duplicates, deletes of absent objects) are replayed into real meta.Data; after EVERY command the return class and the projection of "
+          "the real catalogue must equal the specification's expectation, the same invariants are evaluated on the real structure by a Go "
+          "projection (walk of Databases / RetentionPolicies / ShardGroups / IndexGroups / PtView / nodes), and a command that returned an error "
+          "must leave the reflection dump of the whole catalogue unchanged.",
+  "design_ref": "DESIGN.md section 5 C16",
+  "note": "Bounds of the cfg files; commands as in C15 (node leave, partition moves, shard-key changes, re-sharding, index-group pruning and "
+          "CancelDelete are not modelled); CreateDatabase is offered only after CreateDbPtView with the same replica number (the protocol of "
+          "handlers_process.createDatabase); schema-clean-enable explored with both values (schemas themselves are not modelled: always empty); "
+          "4 ticks of the specification = 1 hour, tick 0 a seed-drawn multiple of 12 hours (also before 1970). Open findings F-C16-1 "
+          "(overlapping live groups after a shard-duration change), F-C16-2 (dropping the default policy leaves the default dangling) and "
+          "F-C16-3 (CreateDataNode panics while a partition view exists for a database without entry) are re-observed and attributed only when "
+          "the real catalogue equals the as-implemented prediction exported by the specification exactly; a behaviour ends at a predicted panic.",
+  "technique": "TLA+ spec (MetaCatalog.tla) model-checked by TLC; TLC-generated command logs replayed into real meta.Data with return, state and invariant comparison after every command",
  },
 }
